@@ -40,10 +40,12 @@ func specFor(prop string) *propSpec {
 	// the load of the machine: about 10-40 s on 16 idle cores); its wall-clock cap is only a safety stop.
 	quickRuns := 20000
 	switch prop {
-	case "C07", "C08", "C13", "C12":
-		quickRuns = 12000 // group scenarios and close-point enumeration cost 3-5 ms of CPU per run
+	case "C07", "C08", "C13":
+		quickRuns = 12000 // group scenarios cost 3-5 ms of CPU per run
 	case "C15":
 		quickRuns = 16000
+	case "C12":
+		quickRuns = 30000 // six scenario families share the budget
 	}
 	s := &propSpec{id: prop, level: "exploration", quick: tierBudget{quickRuns, 150 * time.Second, 6}, thorough: tierBudget{400000, 14 * time.Minute, 24}, real: defaultReal, stub: defaultStub}
 	s.rule = "cases are generated from VERIF_SEED (configuration x workload x fault rules x schedule mode); one case = one fresh worker process = one exactly replayable execution; distinct = distinct hash of the observable trace (wire frames + application-visible events with fake-time stamps); non-trivial = at least one fault fired or at least two application operations overlapped"
@@ -607,8 +609,8 @@ func c12Batch(bin string, rs *cf.Rng, tier string, a *agg) []*cf.Case {
 		}
 		// ... and so it is for further histories that are not enumerated: shutting down right after the last
 		// operation catches components mid-retry, backing off or in an election window
-		for i := 0; i < 8; i++ {
-			f2 := []string{"C01", "C01", "C02", "C04", "C03", "C07", "C06"}[rs.Intn(7)]
+		for i := 0; i < 16; i++ {
+			f2 := []string{"C01", "C02", "C04", "C03", "C03", "C03", "C07", "C06"}[rs.Intn(8)]
 			b := gen.Generate(f2, rs.U64())
 			if tweak(b) {
 				out = append(out, b)
@@ -621,6 +623,6 @@ func c12Batch(bin string, rs *cf.Rng, tier string, a *agg) []*cf.Case {
 func init() {
 	specTweaks["C12"] = func(s *propSpec) {
 		s.level = "fault_enumeration"
-		s.rule = "a base case of one scenario family (producer, consumer, group, offset manager, client) is generated from VERIF_SEED and run once to count its model events K; then the same case is re-run with 'close everything, in the documented order, right after event k' for every k <= K (thorough) or 6 sampled k (quick), each at delta 0 and at half the fake-time gap to the next event; beside each enumerated base, eight more generated histories are run with shutdown at the natural end of their workload only; distinct = distinct observable trace; non-trivial = a fault fired or several application goroutines were active"
+		s.rule = "a base case of one scenario family (producer, consumer, group, offset manager, client) is generated from VERIF_SEED and run once to count its model events K; then the same case is re-run with 'close everything, in the documented order, right after event k' for every k <= K (thorough) or 6 sampled k (quick), each at delta 0 and at half the fake-time gap to the next event; beside each enumerated base, sixteen more generated histories are run with shutdown at the natural end of their workload only; distinct = distinct observable trace; non-trivial = a fault fired or several application goroutines were active"
 	}
 }
